@@ -288,6 +288,10 @@ class MissingPath(Exception):
     pass
 
 
+class InjectedFailure(Exception):
+    pass
+
+
 class Interp(object):
     """dds-free semantics: keep(path, f, a...) == f(a...), data function == its body, load == last value kept
     at the path in program order during this evaluation, else the committed one."""
@@ -298,6 +302,15 @@ class Interp(object):
         self.kept = {}          # path -> value, this evaluation, program order
         self.kept_order = []
         self.executed = []
+        self.fail_at = None     # function name whose first execution raises InjectedFailure (C10)
+        self.stack = []         # kept paths currently being computed
+        self.served = None      # predicate path -> the kept node is served from the store (its body does not run)
+
+    def _quiet(self):
+        """an interpreter that only computes values (used for nodes served from the store)"""
+        q = Interp(self.prog, self.committed)
+        q.kept = dict(self.kept)
+        return q
 
     def bind(self, f, args):
         """args: list aligned with params of already evaluated values or NO (omitted)"""
@@ -345,7 +358,12 @@ class Interp(object):
                 callee = self.prog["funcs"][st[2]]
                 a = self.eval_args(params, locs, st[4])
                 a += [NO] * (len(callee["params"]) - len(a))
-                v = self.call(st[2], a, kept_inline=True)
+                if self.served is not None and self.served(st[1]):
+                    v = self._quiet().call(st[2], a, kept_inline=True)
+                else:
+                    self.stack.append(st[1])
+                    v = self.call(st[2], a, kept_inline=True)
+                    self.stack.pop()
                 self.kept[st[1]] = v
                 self.kept_order.append(st[1])
                 locs.append(v)
@@ -369,9 +387,21 @@ class Interp(object):
     def call(self, fi, args, kept_inline=False):
         f = self.prog["funcs"][fi]
         vals = self.bind(f, args)
+        if is_data(f) and self.served is not None and self.served(f["data"]):
+            res = self._quiet().call(fi, args)
+            self.kept[f["data"]] = res
+            self.kept_order.append(f["data"])
+            return res
         self.executed.append(f["name"])
+        if is_data(f):
+            self.stack.append(f["data"])
+        if self.fail_at is not None and f["name"] == self.fail_at:
+            self.stack_at_failure = list(self.stack)
+            raise InjectedFailure(f["name"])
         params = {p: v for (p, _), v in zip(f["params"], vals)}
         locs = self.run_body(f["body"], params)
+        if is_data(f):
+            self.stack.pop()
         res = (f["name"], f.get("ver", 0)) + tuple(vals) + tuple(locs)
         if f.get("ret") == "text":
             res = repr(res)
